@@ -87,6 +87,23 @@ func handCases() []Hand {
 		{P: prog(Def("n0", Int(0)),
 			Defn("lp", []string{"#x", "n"}, "", Cond(CallN("==", Var("n"), Int(0)), force("#x"), CallN("lp", Begin(Set("n0", plus(Var("n0"), Int(1))), CallN("trace", Var("n"))), CallN("-", Var("n"), Int(1))))),
 			CallN("list", CallN("lp", tr(99), Int(3)), Var("n0"))), Oracle: "trace:I1;val:<P_I1_<P_I1_N>>"},
+		// self tail call handing its lazy formal on: the SYMBOL #x is wrapped again at every jump (not the
+		// thunk passed through); the argument is evaluated once, in the first caller's environment
+		{P: prog(Defn("lp", []string{"#x", "n"}, "", Cond(CallN("==", Var("n"), Int(0)),
+			CallN("list", CallN("substitute", Var("#x")), CallN("force", CallN("force", force("#x"))), CallN("force", CallN("force", force("#x")))),
+			CallN("lp", Var("#x"), CallN("-", Var("n"), Int(1))))),
+			Defn("caller", nil, "", Let(false, []string{"a"}, []*Node{Int(5)}, CallN("lp", CallN("trace", plus(Var("a"), Int(1))), Int(2)))),
+			Def("a", Int(50)), CallN("caller")), Oracle: "trace:I6;val:<P_Y#x_<P_I6_<P_I6_N>>>", Tags: []string{"selftail-passes-formal-on"}},
+		{P: prog(Defn("lp", []string{"#x", "n"}, "", Cond(CallN("==", Var("n"), Int(0)), force("#x"), CallN("lp", Var("#x"), CallN("-", Var("n"), Int(1))))),
+			CallN("lp", tr(1), Int(1))), Oracle: "zero:I1;val:LZ", Tags: []string{"selftail-passes-formal-on"}},
+		// self tail call crossing the formals: the strict formal is handed to the lazy position (wrapped),
+		// the lazy formal to the strict position (the thunk, as a value)
+		{P: prog(Defn("sw", []string{"#x", "y", "n"}, "", Cond(CallN("==", Var("n"), Int(0)), CallN("list", force("#x"), force("y")),
+			CallN("sw", Var("y"), Var("#x"), CallN("-", Var("n"), Int(1))))), CallN("sw", tr(1), tr(2), Int(1))),
+			Oracle: "trace:I2,I1;val:<P_I2_<P_I1_N>>", Tags: []string{"selftail-passes-formal-on"}},
+		// the source survives a successful force
+		{P: prog(Defn("f", []string{"#x"}, "", CallN("list", force("#x"), CallN("substitute", Var("#x")), force("#x"), CallN("substitute", Var("#x")))), CallN("f", tr(3))),
+			Oracle: "trace:I3;val:<P_I3_<P_<P_Ytrace_<P_I3_N>>_<P_I3_<P_<P_Ytrace_<P_I3_N>>_N>>>>"},
 		// KNOWN FINDING tail-known-fn: the self tail call decides laziness from the function most
 		// recently DEFINED under that name in the compile unit, and jumps into the enclosing one
 		{P: prog(Defn("f", []string{"x", "n"}, "", Cond(CallN("==", Var("n"), Int(0)), Var("x"),
